@@ -15,6 +15,12 @@ pub mod shims {
     pub mod crc {
 //@include frag/crc_shim.tpl
     }
+    pub mod tokio {
+//@include frag/tokio_shim.tpl
+    }
+    pub mod sync {
+//@include frag/sync_shim.tpl
+    }
 }
 pub mod common {
     pub mod bits {
@@ -69,6 +75,9 @@ pub mod server {
     }
     pub mod reply_spec {
 //@include frag/server_reply_spec.tpl
+    }
+    pub mod task {
+//@include frag/server_task.tpl
     }
     pub mod request {
 //@include frag/server_request_parse.tpl
